@@ -683,8 +683,8 @@ namespace
                 {
                     if (res->is<t_boolean>())
                     {
-                        if (res->data<d_boolean, bool>())
-                        {
+                        if (res->data<d_boolean, bool>() && m_index < m_array->size())
+                        { // An element the code itself removed is not selected
                             m_out.push_back(m_array->at(m_index));
                         }
                     }
